@@ -67,8 +67,9 @@ PROPS = [
     dict(id="C01", functions=VEC + FRAG_WIRE + FRAG_AGG + FRAG_SEND + HDR + COLL + MB_SEND + QUEUE, assumptions=COMMON + BINARY + HUBS),
     dict(id="C02", functions=SESSION + READERS + f("p/p2pke", "(*Channel).Deliver$1", "(*Channel).Send$1"), assumptions=COMMON + CRYPTO),
     dict(id="C03", functions=SESSION + READERS, assumptions=COMMON + CRYPTO),
-    dict(id="C04", functions=KESWARM + QUICGLUE + f("p/p2pke", "(*Channel).checkKey", "(*Channel).onReadySession", "(*Channel).newResp"),
-         assumptions=COMMON + CRYPTO + ["the channel table of p2pkeswarm (a map under a mutex) and p2pke.Channel's entry points are used through trusted / frame-assumed contracts",
+    dict(id="C04", functions=KESWARM + QUICGLUE + f("p/p2pke", "(*Channel).checkKey", "(*Channel).onReadySession", "(*Channel).newResp") + f("s/sshswarm", "newServer"),
+         assumptions=COMMON + CRYPTO + ["golang.org/x/crypto/ssh.NewServerConn is modelled by its documented contract: the PublicKeyCallback runs for two arbitrary offered keys in either order, one of them authenticates, and the returned connection carries the Permissions the callback returned for that one; ssh.FingerprintSHA256 is an injective uninterpreted function",
+                                        "the channel table of p2pkeswarm (a map under a mutex) and p2pke.Channel's entry points are used through trusted / frame-assumed contracts",
                                         "fingerprinter and whitelist are arbitrary pure callbacks"]),
     dict(id="C05", functions=CHANNEL + f("p/p2pke", "(*Session).IsReady", "(*Session).Deliver", "NewSession"), assumptions=COMMON + CRYPTO),
     dict(id="C06", functions=SESSION, assumptions=COMMON + CRYPTO),
@@ -78,7 +79,7 @@ PROPS = [
     dict(id="C10", functions=FRAG_WIRE + FRAG_AGG + BITMAP + COLL, assumptions=COMMON + BINARY),
     dict(id="C11", functions=ASKHUB + f("p/p2pmux", "(*muxCore).serveLoop$1$1", "(*muxCore).serveLoop$1") + f("s/vswarm", "(*SecureRealm).ask") + f("p/mbapp", "(*ask).complete") + f("s/sshswarm", "(*Swarm).Ask"),
          assumptions=COMMON + HUBS + ["sshswarm's connection table and SSH transport are behind trusted contracts (getConn, Conn.Send)"]),
-    dict(id="C12", functions=TELLHUB + ASKHUB + f("s/swarmutil", "(*Queue).Receive") + f("s/multiswarm", "(*multiSwarm).Close"), assumptions=COMMON + HUBS),
+    dict(id="C12", functions=TELLHUB + ASKHUB + f("s/swarmutil", "(*Queue).Receive") + f("s/multiswarm", "(*multiSwarm).Close", "NewSecureAsk"), assumptions=COMMON + HUBS),
     dict(id="C13", functions=TELLHUB + ASKHUB + f("s/swarmutil", "(*Queue).Receive") + f("s/udpswarm", "(*Swarm).Receive"), assumptions=COMMON + HUBS + ["net.UDPConn.ReadFromUDP blocks on the socket only (no cancellation, no deadline set by the caller): model"]),
     dict(id="C15", functions=MUX + DISPATCH, assumptions=COMMON + BINARY + ["the channel table (sync.Map) only holds swarms built by newMuxedSwarm: trusted contract on muxCore.getSwarm"]),
     dict(id="C16", level="exploration", functions=[],
